@@ -9,7 +9,7 @@ M = "NetqasmVerif.Props.C11"
 THEOREMS = [(M, "NQ.C11." + n) for n in [
     "tables_wellformed", "ser_create_matches_fields", "handles_match_fields", "qlink_enum_fields_typed",
     "request_roundtrip", "named_bases_in_range", "result_handles_keep", "result_handles_measure",
-    "result_handles_ent_info"]]
+    "result_handles_ent_info", "result_handles_ent_info_nv"]]
 TRANSLATORS = ["epr_tables"]
 LEVEL_TEXT = ('Lean theorems: request_roundtrip — for every request type K/M/R, pair count, time unit/limit, '
               'rotation triple, random-basis set (any RandomBasis member or none), socket and node id, the '
@@ -35,6 +35,10 @@ TRUSTED = [
     "harness/epr.py: InProcConnection decodes the serialized host messages and drives the executor in-process",
 ]
 ASSUMPTIONS = [
+    "which returned Qubit holds which pair is established per run: every scripted response carries a distinct "
+    "physical qubit id, followed through mov (NV: communication -> memory qubit) and through the order of "
+    "measurements (sequential requests); with the NV transpiler (mov expanded into gates) the assignment of "
+    "the same case without transpiler is used. Connections have no other live qubit (F28 on NV otherwise)",
     "LINK-LAYER ORDER for the result half: the responses of one (remote node, socket, role) are delivered in "
     "the order of the requests they answer; they may arrive before the matching instruction ran and "
     "interleave arbitrarily with other sockets (the multi-call stream does both). Pair i of a completed "
@@ -171,6 +175,13 @@ def run(ctx):
         pc = H.gen_program_case(rng)
         res.evaluations += 1
         _check_program(res, H, pc)
+    # ---- handles over hardware configurations: generic / NV / NV + transpiler x sequential / all-at-once
+    # x 1..3 pairs x both roles; every handle kind; which returned qubit holds which pair is established
+    # from the run (physical qubit followed through mov / order of measurements)
+    hw_cases = H.all_hw_cases() + [H.gen_hw_case(rng) for _ in range(1500 if ctx.thorough else 250)]
+    for c in hw_cases:
+        res.evaluations += 1
+        _check_hw(ctx, res, H, c)
     # ---- direct streams: serialize_request and _get_create_request on wider / malformed inputs
     nd = 4000 if ctx.thorough else 800
     ex = H.fresh_world()
@@ -222,6 +233,47 @@ def run(ctx):
     return res
 
 
+def _check_hw(ctx, res, H, c):
+    inp = {"hw_case": c}
+    res.count("hw:%s/%s/%s%s" % (c["hw"], c["role"], c["tp"], "/seq" if c["sequential"] and c["tp"] == "K" else ""))
+    base = None
+    try:
+        if c["hw"] == "nv+transpiler" and c["tp"] == "K":
+            base = H.run_hw_case({**c, "hw": "nv"})["pair_of_handle"]
+        out = H.run_hw_case(c, base)
+    except Exception as e:
+        res.failures.append({"what": "harness/SDK raised %s: %s" % (type(e).__name__, e), "kf": None, "input": inp})
+        return None
+    if out["raised"]:
+        res.failures.append({"what": "EPR call raised " + out["raised"], "kf": None, "input": inp})
+        return out
+    if out["stuck"]:
+        res.failures.append({"what": "request never completed although every response was delivered",
+                             "kf": None, "input": inp})
+        return out
+    res.nontrivial.add(json.dumps(c, sort_keys=True))
+    bad = [(w, g, x) for w, g, x in out["checks"] if g != x]
+    if bad:
+        w, g, x = bad[0]
+        res.failures.append({"what": "%s reads %s, the response of that pair has %s" % (w, g, x), "kf": None,
+                             "input": {**inp, "pair_of_handle": out["pair_of_handle"],
+                                       "mismatches": [list(map(str, b)) for b in bad[:6]]}})
+    if out["layout"]:
+        seq = bool(c["sequential"])
+        m = ctx.driver.call({"op": "eprreq.layout", "nv": c["hw"] != "generic", "seq": seq, "n": c["number"]})
+        if m.get("layout") != out["layout"]:
+            res.disagreements.append({"stream": "eprreq.layout", "input": inp, "model": m.get("layout"),
+                                      "code": out["layout"]})
+        # the established location of pair k = virtual id of the returned qubit that holds it
+        if not seq and out["pair_of_handle"]:
+            loc = {pk: vid for (i, vid, _), pk in zip(out["layout"], out["pair_of_handle"])}
+            real_loc = [loc.get(k) for k in range(c["number"])]
+            if m.get("pairloc") != real_loc:
+                res.disagreements.append({"stream": "eprreq.layout(pairloc)", "input": inp,
+                                          "model": m.get("pairloc"), "code": real_loc})
+    return out
+
+
 def _check_program(res, H, pc):
     out = H.run_program_case(pc)
     inp = {"program": pc}
@@ -251,6 +303,15 @@ def replay(ctx, payload):
     from harness import epr as H
     H.quiet()
     inp = (payload.get("failure") or {}).get("input") or {}
+    if "hw_case" in inp:
+        res = Result()
+        out = _check_hw(ctx, res, H, inp["hw_case"])
+        print("pair held by each returned qubit:", out and out["pair_of_handle"], "layout:", out and out["layout"])
+        for f in res.failures:
+            print("FAIL:", f["what"])
+        for d in res.disagreements:
+            print("MODEL!=CODE:", d["stream"], d["model"], d["code"])
+        return 1 if (res.failures or res.disagreements) else 0
     if "program" in inp:
         res = Result()
         out = _check_program(res, H, inp["program"])
